@@ -109,7 +109,11 @@ def event(name):
 # values / exceptions tables
 # ------------------------------------------------------------------------------------------
 class CustomError(Exception):
-    pass
+    """an application exception that is a (here: empty) collection of problems: a FALSY object - an exception is
+    an exception whatever its truth value"""
+
+    def __len__(self):
+        return 0
 
 
 class CustomBase(BaseException):
@@ -634,6 +638,15 @@ def adopt_in_private_loop(ctx, who, rid, pid):
     asyncio.run(inner())
 
 
+def send_sigint():
+    """interrupt the MAIN thread (where Python runs signal handlers).  A process-directed signal (os.kill) may be
+    handed to any thread by the kernel; CPython then only sets a flag, and a main thread sleeping in select() -
+    an idle asyncio loop - is not woken: the interrupt goes unnoticed until something else wakes the loop (seen as a
+    1-in-3000 hang of idle runtimes, far more often on a loaded machine; a property of CPython's signal handling, not
+    of the runtime under test)."""
+    signal.pthread_kill(threading.main_thread().ident, signal.SIGINT)
+
+
 def run_program(ctx, who, prog):
     for st in prog:
         op = st[0]
@@ -660,7 +673,11 @@ def run_program(ctx, who, prog):
             ctx.do_shutdown(who, st[1])
         elif op == "sigint":
             log("Sigint", who)
-            os.kill(os.getpid(), signal.SIGINT)
+            send_sigint()
+        elif op == "sigint_if_running":
+            if st[1] in ctx.accepting and st[1] not in ctx.ended:
+                log("Sigint", who)
+                send_sigint()
         elif op == "wait_running":
             ctx.runners[st[1]].running.wait()
             log("RunningSet", st[1])
